@@ -276,6 +276,8 @@ struct Exec<'a> {
     carry_ord: [u32; 4],
     /// a directory entry was deleted while a handle on another stream was live
     deleted_under_handle: bool,
+    /// an oracle over the saved bytes has failed already (reported once)
+    byte_level_failed: bool,
 }
 
 fn fault_free() -> DiskCfg {
@@ -1085,6 +1087,9 @@ impl<'a> Exec<'a> {
             return;
         }
         // C08 / C10: independent decode of the bytes
+        if self.byte_level_failed {
+            return;
+        }
         self.stats.decodes += 1;
         self.stats.oracle_evals += 1;
         match codec::decode(image) {
@@ -1093,7 +1098,9 @@ impl<'a> Exec<'a> {
                 if self.foreign && !faulty {
                     self.viol("C02.saved-decode-eq", "decode", format!("independent decoder: {}", e));
                 }
-                self.done = true;
+                // byte-level findings do not end the run: the API-level
+                // consequences (if any) belong to other properties
+                self.byte_level_failed = true;
             }
             Ok(d) => {
                 let (problems, facts) = decodecheck::check_decoded(&d, &self.model, self.exact_pool);
@@ -1122,7 +1129,7 @@ impl<'a> Exec<'a> {
                             self.viol("C02.saved-decode-eq", "decode", m);
                         }
                     }
-                    self.done = true;
+                    self.byte_level_failed = true;
                 }
             }
         }
@@ -1583,6 +1590,7 @@ pub fn run(trace: &Trace, cfg: &ExecCfg) -> RunResult {
         any_hard_fault: false,
         carry_ord: [0; 4],
         deleted_under_handle: false,
+        byte_level_failed: false,
     };
     match &trace.init {
         Init::Create(pt) => {
